@@ -40,7 +40,8 @@ def materialise(world, dirpath, samples, build="hg19", profile_yaml=True, extra=
         if smp.get("paired"):
             reads = W.pair_names(reads, smp.get("phase_seed", 0))
         fn = f"{name}.bam"
-        W.write_bam(os.path.join(dirpath, fn), world, reads, build=build)
+        W.write_bam(os.path.join(dirpath, fn), world, reads, build=build, lowq=smp.get("lowq"),
+                    dup=smp.get("dup", 1))
         man["samples"][name] = fn
     return man
 
